@@ -250,6 +250,25 @@ def observe(res: Dict[str, Any], frames: Dict[int, bytes], timecode: bool) -> Tu
     return lines, streams
 
 
+def final_tables(res: Dict[str, Any]) -> List[str]:
+    """the manager's tables when the script is exhausted: one FINAL line per entry of `modules` (what the manager recorded
+    about the connection: id, flags, pid, name, subscriptions), the logger set and the subscription index"""
+    mgr = res["mgr"]
+    uid_of = lambda conn: 0 if conn is mgr.listen_socket else getattr(conn, "uid", -1)  # noqa: E731
+    L = []
+    for conn, m in mgr.modules.items():
+        nm = m.name.encode("latin1", "replace") if isinstance(m.name, str) else bytes(m.name)
+        subs = sorted(int(t) for t in m.subs)
+        L.append("FINAL %d %d %d %d %d %d %d %s %s" % (uid_of(conn), m.mod_id, int(bool(m.unique)), int(bool(m.is_logger)),
+                 int(bool(m.is_daemon)), int(bool(m.connected)), m.pid, nm.hex() or "-", " ".join(map(str, subs))))
+    L.append("FLOG " + " ".join(str(uid_of(m.conn)) for m in mgr.logger_modules))
+    for t in sorted(mgr.subscriptions):
+        members = [uid_of(m.conn) for m in mgr.subscriptions[t]]
+        if members:
+            L.append(f"FIDX {int(t)} " + " ".join(map(str, members)))
+    return L
+
+
 def streams_whole(streams: Dict[int, bytes], partial_ok: set, timecode: bool) -> Optional[str]:
     """every byte stream must parse as whole frames (header + exactly the declared payload); a trailing partial
     frame is allowed only on connections whose payload write was made to fail"""
@@ -287,13 +306,14 @@ def run_script(script: List[Dict[str, Any]], *, timecode: bool = False, log_leve
     finally:
         M.os.getpid = _orig_getpid
     obs, streams = observe(res, frames, timecode)
+    final = final_tables(res) if not res["crash"] else []
     c = consts()
     c.update({"logLevel": log_level, "timing": 1 if timing else 0, "rev": 1 if order == "rev" else 0})
     cfg = "CFG " + " ".join(f"{k}={v}" for k, v in c.items())
     inp = to_protocol(script, timecode)
     partial_ok = {int(l.split()[1]) for l in obs if l.startswith("P ")}
     whole = streams_whole(streams, partial_ok, timecode)
-    return {"cfg": cfg, "input": inp, "obs": obs, "crash": res["crash"], "whole": whole,
+    return {"cfg": cfg, "input": inp, "obs": obs + final, "crash": res["crash"], "whole": whole,
             "rtma_log_enabled": res["rtma_log_enabled"], "rounds_played": res["rounds_played"]}
 
 
